@@ -39,9 +39,16 @@ RULE = ('cases = (kind, mode, package, sources, permutation | constant | history
         'non-alphabetical order, remove_resolved on / off in the distance-dependent mode; thorough enumerates every permutation '
         'of 2..4 filters and of 2..4 models in both modes; non-trivial = the permutation is not the identity / c != 1 / the '
         'history has a repeated or interleaved source; distinct = canonical hash of the generated inputs')
-REQUIRED_BRANCHES = ['fmt_files', 'fmt_cube_wav', 'fmt_cube_named', 'fmt_cube_mixed', 'memmap_on', 'memmap_off', 'remove_resolved',
+REQUIRED_BRANCHES = ['fitter_positional', 'fitter_keywords', 'distance_range_kpc', 'distance_range_pc', 'extinction_direct',
+                     'extinction_deepcopy', 'extinction_pickle', 'extinction_copy', 'history_after_refused_call',
+                     'rep_route_copy', 'rep_route_deepcopy', 'rep_route_pickle', 'rep_route_dict',
+                     'rep_float64', 'rep_int64', 'rep_int32', 'rep_list_int', 'rep_bigendian_int32', 'rep_bigendian', 'rep_readonly',
+                     'rep_list_float', 'rep_noncontiguous', 'rep_valid_float', 'scale_integer_constant_integer_arrays',
+                     'fmt_files', 'fmt_cube_wav', 'fmt_cube_named', 'fmt_cube_mixed', 'memmap_on', 'memmap_off', 'remove_resolved',
                      'names_unsorted', 'filter_perm_cube', 'model_perm_cube', 'history_cube',
                      'filter_perm', 'filter_perm_interior', 'same_theta_diff_tables', 'history_reassign', 'interleaved',
+                     'shared_cube_slice', 'shared_slice_adjacent_vs_separated', 'shared_slice_exact_duplicate', 'shared_slice_near_duplicate',
+                     'interleaved_remove_resolved_memmap', 'interleaved_remove_resolved_permuted_filters',
                      'interleaved_memmap_both', 'interleaved_mixed_storage', 'interleaved_perfile', 'zero_flux_model', 'shared_extinction_object', 'model_perm', 'scale', 'history', 'mode_indep', 'mode_dist', 'tie_group',
                      'scale_up', 'scale_down', 'limits_present', 'flag4_present', 'ignored_present', 'model_corr',
                      'history_repeat', 'history_interleaved']
@@ -64,6 +71,9 @@ ASSUMPTIONS = ['IEEE rounding is not modelled: permuting filters changes the ord
                'are strictly positive): they are included in the history / interleaved kinds with NaN-aware comparison; a difference '
                'confined to the zero-flux model (or to the fitter arrays of such a grid) is reported without a verdict (violates=None), '
                'a difference in a model with all-positive fluxes is a violation',
+               'the source arrays are held, per case, as float64 / int64 / int32 / big-endian / read-only / strided arrays or lists '
+               '(integer containers with whole-number photometry; in the scale kind often with a whole-number constant, the scaled '
+               'member staying integer when it has no flag-4 band); expectations are unchanged - only the values matter',
                'the source must not be modified (compared by digest before / after); whether FitInfo.source is the same object '
                'or a copy is not part of the property']
 EXHAUSTIVE = {'quick': False, 'thorough': True}
@@ -123,12 +133,12 @@ def gen_package(rng, nb, nm, dup=False):
                 drange=[dmin, dmax], theta=theta, step=step)
 
 
-def gen_source(rng, pkg, flags=None):
+def gen_source(rng, pkg, flags=None, sc_range=(-0.3, 0.6)):
     """a source inside the quantifier of C01/C02: at least two fitted bands whose extinction coefficients differ"""
     nb = len(pkg['wavs'])
     for attempt in range(50):
         fl = list(flags) if (flags is not None and attempt == 0) else gen_flags(rng, nb)
-        u = c03.gen_source(rng, fl, pkg['models'], pkg['wavs'])
+        u = c03.gen_source(rng, fl, pkg['models'], pkg['wavs'], sc_range=sc_range)
         s = c03.variants(u)['S']
         if not c01.singular(pkg, s):
             return s
@@ -142,7 +152,8 @@ def gen_sources(rng, pkg, n):
 
 
 def gen_case(rng, kind, mode, perm=None, nb=None, nm=None, c=None, interior=False, fmt=None, memmap=None,
-             resolved=None, difftab=None, zero=None, spec_override=None):
+             resolved=None, difftab=None, zero=None, spec_override=None, rep='random', twin=None, masked_interleave=None,
+             call=None):
     perm_given = perm is not None
     nb = nb or rng.randint(2, 6)
     nm = nm or rng.randint(2 if kind == 'model_perm' else 1, 8)
@@ -189,6 +200,35 @@ def gen_case(rng, kind, mode, perm=None, nb=None, nm=None, c=None, interior=Fals
         else:
             hist = [rng.randrange(k) for _ in range(n)]
         case['history'] = hist
+    if twin is None:
+        twin = (kind == 'filter_perm' and mode == 'dist' and nb >= 3 and not difftab and rng.random() < 0.25)
+    if twin and nb >= 3:
+        # a coarse cube: two requested wavelengths (an exact duplicate or a near-duplicate) whose nearest tabulated wavelength is
+        # the SAME slice, adjacent in one filter order and separated in the other
+        difftab = False
+        fmt = 'cube_wav'
+        j1 = rng.randrange(nb - 1)
+        j2 = j1 + 1
+        case['wavs'][j2] = case['wavs'][j1] if twin == 'exact' or (twin is True and rng.random() < 0.5) \
+            else float('%.6g' % (case['wavs'][j1] * rng.choice([1.0005, 0.9995, 1.002])))
+        for i in range(nm):
+            case['models'][i][j2] = case['models'][i][j1]
+            case['grow'][i][j2] = list(case['grow'][i][j1])
+        case['twin_of'] = {str(j2): j1}
+        case['sources'] = gen_sources(rng, case, len(case['sources']))
+        if kind == 'filter_perm' and not perm_given:
+            pm = case['perm']
+            if abs(pm.index(j1) - pm.index(j2)) == 1:
+                # separate them: move j2 to the far end from j1
+                pm.remove(j2)
+                if pm.index(j1) >= len(pm) / 2.:
+                    pm.insert(0, j2)
+                else:
+                    pm.append(j2)
+                if abs(pm.index(j1) - pm.index(j2)) == 1:      # nb == 3 with j1 in the middle
+                    pm.remove(j1)
+                    pm.insert(0 if pm.index(j2) == len(pm) - 1 else len(pm), j1)
+            case['perm'] = pm
     if difftab is None:
         difftab = (kind == 'filter_perm' and mode == 'dist' and nb >= 2 and rng.random() < 0.3)
     if difftab:
@@ -249,6 +289,35 @@ def gen_case(rng, kind, mode, perm=None, nb=None, nm=None, c=None, interior=Fals
                               scale=float('%.3g' % (10 ** rng.uniform(-1.5, 1.5))), reverse=False))
         if spec_override is not None:
             specs = spec_override
+        if masked_interleave is None:
+            masked_interleave = (mode == 'dist' and nb >= 3 and rng.random() < 0.4)
+        if masked_interleave and mode == 'dist' and nb >= 3:
+            # remove_resolved=True with memory-mapped cube packages whose `extended` planes differ between filters (one steep
+            # band), the second fitter with the filters permuted so that the steep band sits where a source has an unused band
+            c03.make_resolved(case, rng, jstar=0, replant=False)
+            lo = math.log10(case['drange'][0])
+            hi = lo + 0.6 * math.log10(case['drange'][1] / case['drange'][0])
+            srcs = []
+            for k_ in range(len(case['sources'])):
+                fl = gen_flags(rng, nb)
+                fl[0] = rng.choice([1, 4])
+                z = rng.randrange(1, nb)
+                fl[z] = 0
+                others = [j for j in range(1, nb) if j != z]
+                fl[others[0]] = rng.choice([1, 4])
+                positive = dict(case)       # sources are drawn from the positive grid (a zero flux marks an invalid band)
+                positive['models'] = [[x if x > 0 else 1. for x in row] for row in case['models']]
+                srcs.append(gen_source(rng, positive, flags=fl, sc_range=(lo, hi)))
+            case['sources'] = srcs
+            z0 = case['sources'][0]['flags'].index(0) if 0 in case['sources'][0]['flags'] else nb - 1
+            pm = list(range(nb))
+            pm[0], pm[z0] = pm[z0], pm[0]
+            specs = [dict(fmt='cube_wav', memmap=True, scale=1., reverse=False, resolved=True),
+                     dict(fmt='cube_wav', memmap=True, scale=1., reverse=False, resolved=True, perm=pm)]
+            if rng.random() < 0.4:
+                specs.append(dict(fmt='cube_wav', memmap=False, scale=float('%.3g' % (10 ** rng.uniform(-1, 1))), reverse=True,
+                                  resolved=bool(rng.random() < 0.5)))
+            case['resolved'] = True
         case['fitters'] = specs
         ns = len(case['sources'])
         plan = [[0, 0]]
@@ -256,6 +325,12 @@ def gen_case(rng, kind, mode, perm=None, nb=None, nm=None, c=None, interior=Fals
             plan.append([(t + 1) % len(specs) if rng.random() < 0.8 else rng.randrange(len(specs)), rng.randrange(ns)])
         plan.append([0, 0])
         case['plan'] = plan
+    apply_rep(case, rep if rep != 'random' else rng.choice(REPS), rng)
+    # how the public API is called: positional / keyword construction, distance range in kpc / pc, the Extinction object
+    # used directly or after copy / deepcopy / pickle, a refused call (malformed source) before the history
+    case['call'] = call if call is not None else dict(
+        positional=(rng.random() < 0.35), dunit=rng.choice(['kpc', 'kpc', 'pc']),
+        ext_route=rng.choice([None, None, 'deepcopy', 'pickle', 'copy']), refused_first=(rng.random() < 0.4))
     return case
 
 
@@ -280,10 +355,14 @@ def gen_cases(seed, tier):
         if difftab:
             fmt, mm = 'files', False
         case = gen_case(rng, kind, mode, nb=5, nm=(4 if kind == 'model_perm' else None), c=c, interior=interior,
-                        fmt=fmt, memmap=mm, resolved=(rr and mode == 'dist'), difftab=(True if difftab else False))
+                        fmt=fmt, memmap=mm, resolved=(rr and mode == 'dist'), difftab=(True if difftab else False), rep=None)
         case['sources'][0] = gen_source(rng, case, flags=[1, 4, 3, 0, 2])
         if kind == 'history':
             case['history'] = [0, 1, 0, 0, 1]
+        apply_rep(case, DIRECTED_REPS[i % len(DIRECTED_REPS)], rng)
+        case['call'] = dict(DIRECTED_CALLS[i % len(DIRECTED_CALLS)])
+        if kind == 'scale' and case['rep'] in c03.INT_REPS:
+            case['c'] = 100. if case['c'] > 1 else case['c']
         yield case
         i += 1
     if tier == 'thorough':
@@ -302,13 +381,18 @@ def gen_cases(seed, tier):
     both_on = [dict(fmt='cube_wav', memmap=True, scale=1., reverse=False), dict(fmt='cube_named', memmap=True, scale=7.3, reverse=True)]
     mixed = [dict(fmt='cube_mixed', memmap=True, scale=1., reverse=False), dict(fmt='cube_wav', memmap=False, scale=0.21, reverse=True),
              dict(fmt='files', memmap=False, scale=3.9, reverse=False)]
-    for kind, mode, extra in (('interleaved', 'indep', dict(spec_override=both_on)), ('interleaved', 'dist', dict(spec_override=both_on)),
+    for kind, mode, extra in (('filter_perm', 'dist', dict(twin='exact', nb=4, nm=3)), ('filter_perm', 'dist', dict(twin='near', nb=3, nm=3)),
+                              ('filter_perm', 'dist', dict(twin='near', nb=5, nm=2)),
+                              ('interleaved', 'dist', dict(masked_interleave=True)), ('interleaved', 'dist', dict(masked_interleave=True)),
+                              ('interleaved', 'indep', dict(spec_override=both_on)), ('interleaved', 'dist', dict(spec_override=both_on)),
                               ('interleaved', 'dist', dict(spec_override=mixed)), ('interleaved', 'indep', dict(spec_override=mixed, zero=True)),
                               ('history', 'indep', dict(zero=True, fmt='files')), ('history', 'dist', dict(zero=True, fmt='cube_wav', memmap=True))):
         rng = case_rng(seed, PID, 'd%d' % i)
-        case = gen_case(rng, kind, mode, nb=4, nm=4, **extra)
+        extra = dict(extra)
+        case = gen_case(rng, kind, mode, nb=extra.pop('nb', 4), nm=extra.pop('nm', 4), **extra)
         if kind == 'history':
             case['history'] = [0, 1, 0, 0, 1]
+            case['call'] = dict(DIRECTED_CALLS[i % 2], refused_first=True)
         yield case
         i += 1
     for kind in ('filter_perm', 'model_perm', 'scale', 'history', 'interleaved'):
@@ -359,11 +443,13 @@ def write_package(case, d, mode, row_order=None):
         pk.write_conf(d, aperture_dependent=dist, logd_step=case['step'])
     else:
         extra = float('%.3g' % (max(case['wavs']) * 2.5))
-        wav = list(case['wavs']) + [extra]
+        twins = dict((int(k), v) for k, v in (case.get('twin_of') or {}).items())     # filter -> the filter whose slice it shares
+        tab = [j for j in range(len(case['wavs'])) if j not in twins]
+        wav = [case['wavs'][j] for j in tab] + [extra]
         val = np.ones((nm, nap, len(wav)))
         for r, i in enumerate(order):
-            for j in range(len(case['wavs'])):
-                val[r, :, j] = flux_of(i, j)
+            for t, j in enumerate(tab):
+                val[r, :, t] = flux_of(i, j)
         pk.write_cube_package(d, [names[i] for i in order], wav, val, np.zeros_like(val),
                               apertures_au=(case['aps'] if dist else None), aperture_dependent=dist,
                               logd_step=case['step'])
@@ -374,7 +460,19 @@ def write_package(case, d, mode, row_order=None):
 
 
 def make_ext(case):
-    return pk.make_extinction(case['tab_w'], case['tab_chi'])
+    """the Extinction object of the case, possibly passed through copy / deepcopy / pickle before use"""
+    e = pk.make_extinction(case['tab_w'], case['tab_chi'])
+    route = (case.get('call') or {}).get('ext_route')
+    if route == 'deepcopy':
+        import copy
+        e = copy.deepcopy(e)
+    elif route == 'copy':
+        import copy
+        e = copy.copy(e)
+    elif route == 'pickle':
+        import pickle
+        e = pickle.loads(pickle.dumps(e, 2))
+    return e
 
 
 def make_fitter(case, d, mode, filter_order=None, ext=None, drange=None):
@@ -388,15 +486,63 @@ def make_fitter(case, d, mode, filter_order=None, ext=None, drange=None):
     named = named_filters(case)
     fnames = [('F%d' % j) if j in named else case['wavs'][j] * u.micron for j in order]
     memmap = bool(case.get('memmap', False))
-    if mode == 'indep':
-        return pk.make_fitter(d, fnames, [1.] * nb, ext, case['av'], use_memmap=memmap)
-    return pk.make_fitter(d, fnames, [case['theta'][j] for j in order], ext, case['av'],
-                          distance_range_kpc=(drange if drange is not None else case['drange']), use_memmap=memmap,
-                          remove_resolved=bool(case.get('resolved', False)))
+    call = case.get('call') or {}
+    dr = list(drange if drange is not None else case['drange']) if mode != 'indep' else [1., 2.]
+    dunit = call.get('dunit', 'kpc')
+    if dunit == 'pc':
+        dr = [x * 1000. for x in dr]
+    thetas = [1.] * nb if mode == 'indep' else [case['theta'][j] for j in order]
+    resolved = bool(case.get('resolved', False)) and mode != 'indep'
+    if call.get('positional'):
+        # Fitter(filter_names, apertures, model_dir, extinction_law, av_range, distance_range, remove_resolved, use_memmap),
+        # all positional; filter names as a tuple, A_V range as a list
+        from sedfitter.fit import Fitter
+        with common.quiet():
+            return Fitter(tuple(fnames), np.array(thetas, dtype=float) * u.arcsec, d, ext, list(case['av']),
+                          np.array(dr, dtype=float) * u.Unit(dunit), resolved, memmap)
+    return pk.make_fitter(d, fnames, thetas, ext, case['av'], distance_range_kpc=dr, use_memmap=memmap,
+                          remove_resolved=resolved, distance_unit=dunit)
+
+
+_REP = [None]      # representation of the source arrays of the case being run (set by run_case)
+
+
+def rep_for(s, rep):
+    """the representation to hold `s` in: an integer container only if every value is a whole number"""
+    if rep in c03.INT_REPS:
+        vals = list(s['flux']) + list(s['err'])
+        if not all(math.isfinite(v) and float(v) == int(v) and abs(v) < 2 ** 31 for v in vals):
+            return None
+    return rep
+
+
+def source_obj(tag, s):
+    return c03.make_source_rep(tag, s, rep_for(s, _REP[0]))
+
+
+def apply_rep(case, rep, rng):
+    """hold the sources of the case as int64 / int32 / big-endian / read-only / strided arrays or lists; integer containers
+    get whole-number photometry (and, for the scale kind, often a whole-number constant, so that c * array stays integer)"""
+    case['rep'] = rep
+    if rep in c03.INT_REPS:
+        case['sources'] = [c03.integerised(s) for s in case['sources']]
+        if case['kind'] == 'scale' and rng.random() < 0.6:
+            case['c'] = float(rng.choice([2, 3, 10, 100, 1000]))
+    return case
+
+
+DIRECTED_REPS = ['int64', 'readonly', 'list_int', 'bigendian', 'int32', 'noncontiguous', 'bigendian_int32', 'list_float', 'int64',
+                 'valid_float', 'route_pickle', 'route_deepcopy']
+DIRECTED_CALLS = [dict(positional=True, dunit='pc', ext_route='deepcopy', refused_first=True),
+                  dict(positional=False, dunit='kpc', ext_route='pickle', refused_first=True),
+                  dict(positional=True, dunit='kpc', ext_route='copy', refused_first=False),
+                  dict(positional=False, dunit='pc', ext_route=None, refused_first=True)]
+REPS = [None, None, None, 'route_copy', 'route_deepcopy', 'route_pickle', 'route_dict', 'valid_uint8', 'int64', 'int32', 'list_int', 'bigendian_int32', 'bigendian', 'readonly', 'list_float', 'noncontiguous',
+        'valid_float']
 
 
 def fit(fitter, s, tag='s'):
-    src = pk.make_source(tag, s['flags'], s['flux'], s['err'])
+    src = source_obj(tag, s)
     with common.quiet():
         info = fitter.fit(src)
     return pk.fit_arrays(info)
@@ -546,6 +692,15 @@ def run_filter_perm(case, use_model, branches, stats, dirs):
     write_package(case, d, mode)
     if interior_only(perm):
         branches.add('filter_perm_interior')
+    if case.get('twin_of') and mode == 'dist':
+        for j2_, j1_ in case['twin_of'].items():
+            j2_ = int(j2_)
+            adj_a = abs(j1_ - j2_) == 1
+            adj_b = abs(perm.index(j1_) - perm.index(j2_)) == 1
+            branches.add('shared_cube_slice')
+            if adj_a != adj_b:
+                branches.add('shared_slice_adjacent_vs_separated')
+            branches.add('shared_slice_exact_duplicate' if case['wavs'][j1_] == case['wavs'][j2_] else 'shared_slice_near_duplicate')
     if case.get('same_theta') and mode == 'dist':
         a_, b_ = case['same_theta']
         tabs = case['aps_by_filter']
@@ -758,9 +913,23 @@ def run_history(case, use_model, branches, stats, dirs):
         note_flags(s, branches)
         ref[i] = fit(make_fitter(case, d, mode, ext=ext), s, tag='s%d' % i)
     f = make_fitter(case, d, mode, ext=ext)
-    srcs = {i: pk.make_source('s%d' % i, case['sources'][i]['flags'], case['sources'][i]['flux'], case['sources'][i]['err'])
-            for i in set(hist)}
+    srcs = {i: source_obj('s%d' % i, case['sources'][i]) for i in set(hist)}
     d0 = fitter_digest(f)
+    if (case.get('call') or {}).get('refused_first'):
+        # a call that cannot succeed (a source with one band too many) must leave the fitter as it was
+        s0 = case['sources'][hist[0]]
+        bad = pk.make_source('bad', list(s0['flags']) + [1], list(s0['flux']) + [1.], list(s0['err']) + [0.1])
+        try:
+            with common.quiet():
+                f.fit(bad)
+            refused = False
+        except Exception:
+            refused = True
+        branches.add('history_after_refused_call' if refused else 'history_malformed_accepted')
+        if fitter_digest(f) != d0:
+            return CaseResult(False, violates=(None if case.get('zero') else True),
+                              detail='history (%s): a refused call (source with %d bands for %d filters) modified the fitter'
+                                     % (mode, len(s0['flags']) + 1, len(s0['flags'])))
     for step, i in enumerate(hist):
         src = srcs[i]
         sd0 = source_digest(src)
@@ -812,6 +981,8 @@ def derived_case(case, spec):
     if spec['fmt'] == 'cube_mixed' and 'named' not in c:
         c['named'] = [0]
     c.pop('aps_by_filter', None)
+    if 'resolved' in spec:
+        c['resolved'] = bool(spec['resolved'])
     return c
 
 
@@ -835,17 +1006,25 @@ def run_interleaved(case, use_model, branches, stats, dirs):
         d = tempfile.mkdtemp(prefix='c11_'); dirs.append(d)
         write_package(c, d, mode)
         cases.append(c); pdirs.append(d)
+    def src_for(k, si):
+        pm = specs[k].get('perm')
+        return permuted_source(case['sources'][si], pm) if pm else case['sources'][si]
+
+    if any(sp.get('resolved') and sp['memmap'] for sp in specs) and mode == 'dist':
+        branches.add('interleaved_remove_resolved_memmap')
+        if any(sp.get('perm') for sp in specs):
+            branches.add('interleaved_remove_resolved_permuted_filters')
     # references first: a fresh fitter of the package, used once, then dropped
     ref = {}
     for k, si in plan:
         if (k, si) not in ref:
-            ref[(k, si)] = fit(make_fitter(cases[k], pdirs[k], mode, ext=ext), case['sources'][si])
+            ref[(k, si)] = fit(make_fitter(cases[k], pdirs[k], mode, filter_order=specs[k].get('perm'), ext=ext), src_for(k, si))
     fitters, digests = [], []
     for k in range(len(specs)):
-        fitters.append(make_fitter(cases[k], pdirs[k], mode, ext=ext))
+        fitters.append(make_fitter(cases[k], pdirs[k], mode, filter_order=specs[k].get('perm'), ext=ext))
         digests.append(fitter_digest(fitters[k]))
     for step, (k, si) in enumerate(plan):
-        got = fit(fitters[k], case['sources'][si])
+        got = fit(fitters[k], src_for(k, si))
         viol, diff = history_verdict(cases[k], ref[(k, si)], got)
         if diff:
             return CaseResult(False, violates=viol,
@@ -876,6 +1055,14 @@ def run_case(case, use_model=True):
             branches.add(k + '_cube')
     stats = dict(relaxed=0)
     dirs = []
+    call = case.get('call') or {}
+    branches.add('fitter_positional' if call.get('positional') else 'fitter_keywords')
+    branches.add('distance_range_' + call.get('dunit', 'kpc'))
+    branches.add('extinction_' + (call.get('ext_route') or 'direct'))
+    _REP[0] = case.get('rep')
+    branches.add('rep_%s' % (case.get('rep') or 'float64'))
+    if case['kind'] == 'scale' and case.get('rep') in c03.INT_REPS and float(case['c']) == int(case['c']):
+        branches.add('scale_integer_constant_integer_arrays')
     try:
         r = RUNNERS[case['kind']](case, use_model, branches, stats, dirs)
         key = common.canon_hash(case)
